@@ -2,6 +2,7 @@
 package c04
 
 import (
+	"time"
 	"encoding/json"
 	"fmt"
 	"os"
@@ -55,6 +56,10 @@ type CliCase struct {
 	Order  int  `json:"order,omitempty"`  // 1: options in reverse order
 	Bare   bool `json:"bare,omitempty"`
 	Layout int  `json:"layout,omitempty"` // 1: indented with tabs as coca writes it, 2: the same with CRLF, 3: blanks and a final newline around the compact text
+	// Past (eighth seed batch): the working directory has a past: the same command was run there before on this other
+	// model (reports of it lie in coca_reporter), and the dependence file of the judged run is an hour old when the
+	// judged run starts (a file produced earlier, copied with its times)
+	Past *mgen.Model `json:"past,omitempty"`
 }
 
 // ---- reference -------------------------------------------------------------------------
@@ -352,6 +357,33 @@ func genCli(t *rapid.T) CliCase {
 		c.Layout = rapid.IntRange(1, 3).Draw(t, "layout")
 	}
 	c.Bare = genBare(t)
+	if rapid.IntRange(0, 3).Draw(t, "workingDirectoryWithAPast") == 3 {
+		past, _ := xGen(t)
+		if rapid.Bool().Draw(t, "pastIsTheModelWithOtherCallers") {
+			// the same classes and methods; every method has the calls of the method declared after it: what is called
+			// stays called, by someone else
+			var lists [][]mgen.Call
+			for _, cl := range m.Classes {
+				for _, mm := range cl.Methods {
+					lists = append(lists, append([]mgen.Call(nil), mm.Calls...))
+				}
+			}
+			past = mgen.Model{}
+			k := 0
+			for _, cl := range m.Classes {
+				nc := cl
+				nc.Methods = append([]mgen.Method(nil), cl.Methods...)
+				for i := range nc.Methods {
+					k++
+					if len(lists) > 0 {
+						nc.Methods[i].Calls = lists[k%len(lists)]
+					}
+				}
+				past.Classes = append(past.Classes, nc)
+			}
+		}
+		c.Past = &past
+	}
 	return c
 }
 
@@ -893,13 +925,30 @@ func checkCli(c CliCase) pbt.Verdict {
 			opts[i], opts[j] = opts[j], opts[i]
 		}
 	}
-	cli.WriteTree(dir, map[string]string{depsAt: string(deps)})
 	args := []string{"rcall"}
 	if c.Mode == "lookup" {
 		args = []string{"call"}
 	}
 	for _, o := range opts {
 		args = append(args, o...)
+	}
+	if c.Past != nil {
+		pd := convert(*c.Past, c.Bare)
+		if pd == nil {
+			pd = []core_domain.CodeDataStruct{}
+		}
+		pastDeps, _ := json.Marshal(pd)
+		cli.WriteTree(dir, map[string]string{depsAt: string(pastDeps)})
+		if pre, err := cli.Run("coca", dir, nil, args...); err != nil {
+			panic("cannot run coca: " + err.Error())
+		} else if pre.TimedOut {
+			return pbt.Verdict{Skip: true}
+		}
+	}
+	cli.WriteTree(dir, map[string]string{depsAt: string(deps)})
+	if c.Past != nil {
+		old := time.Now().Add(-time.Hour)
+		_ = os.Chtimes(filepath.Join(dir, filepath.FromSlash(depsAt)), old, old)
 	}
 	res, err := cli.Run("coca", dir, nil, args...)
 	if err != nil {
@@ -923,6 +972,9 @@ func checkCli(c CliCase) pbt.Verdict {
 	}
 	if c.Layout != 0 {
 		v.Classes = append(v.Classes, "cli_deps_json_laid_out")
+	}
+	if c.Past != nil {
+		v.Classes = append(v.Classes, "cli_working_directory_with_a_past")
 	}
 	if len(deps) > 65536 {
 		v.Classes = append(v.Classes, "cli_deps_json_line>64k")
